@@ -7,6 +7,7 @@ d R-EFFECT   applying a variant only adds nodes/edges; the reference path is spl
 e            adding a GVF file only appends pointers (shared with C06.c)
 """
 import ast
+import re
 from sa.model import unparse, norm_stmt, call_name, kwarg, walk_no_nested, AnalysisError
 from sa.cfg import CFG
 from sa import guards as G
@@ -173,22 +174,46 @@ def run(chk, repo):
     # ------------------------------------------------------------------ b
     chk.rule('C05.b', 'R-EFFECT: alt-translation is additive, copy-before-mutate, no-op when off', 7)
     vt = repo.func('svgraph.VariantPeptideDict:VariantPeptideDict.translational_modification')
-    ws = [w for w in G.writes_in(vt.node.body) if w[0] == 'self' or w[0] == 'val']
-    allowed = {'self.peptides.setdefault(seq_mod, {})', 'self.seqs.add(seq_mod)', 'val[key] = cur_metadata'}
-    bad = [norm_stmt(repo.enclosing_stmt(w[2])) for w in ws if unparse(w[2]) not in allowed and norm_stmt(repo.enclosing_stmt(w[2])) not in allowed
-           and not norm_stmt(repo.enclosing_stmt(w[2])).startswith('val = self.peptides.setdefault(')]
+    from sa import sem
+    nvt = sem.nf(repo, vt)
+    # pool containers: self.peptides / self.seqs and every local bound to an entry of self.peptides
+    entry_alias = {unparse(n.targets[0]) for n in ast.walk(nvt) if isinstance(n, ast.Assign) and len(n.targets) == 1 and isinstance(n.targets[0], ast.Name)
+                   and unparse(n.value).startswith(('self.peptides.setdefault(', 'self.peptides['))}
+    def pool_base(e):
+        t = unparse(e)
+        return t.startswith(('self.peptides', 'self.seqs')) or t in entry_alias
+    bad = []
+    stores = sem.facts_where(nvt, lambda st: isinstance(st, (ast.Assign, ast.AugAssign, ast.Delete)) and any(
+        isinstance(t, ast.Subscript) and pool_base(t.value) for t in (st.targets if isinstance(st, (ast.Assign, ast.Delete)) else [st.target])))
+    unguarded = []
+    for st, fx in stores:
+        if not isinstance(st, ast.Assign):
+            bad.append(norm_stmt(st))
+            continue
+        t = st.targets[0]
+        if sem.known(fx, f"{unparse(t.slice)} not in {unparse(t.value)}") is not True:
+            unguarded.append(norm_stmt(st))
+    for n in ast.walk(nvt):
+        if isinstance(n, ast.Call) and isinstance(n.func, ast.Attribute) and pool_base(n.func.value) and \
+                n.func.attr in ('pop', 'clear', 'remove', 'discard', 'update', 'popitem', '__delitem__', '__setitem__'):
+            bad.append(unparse(n))
+        if isinstance(n, (ast.Assign, ast.AugAssign)):
+            for t in (n.targets if isinstance(n, ast.Assign) else [n.target]):
+                if isinstance(t, ast.Attribute) and unparse(t) in ('self.peptides', 'self.seqs'):
+                    bad.append(norm_stmt(n))
     chk.ob('C05.b', 'W2F pass writes the pool only through setdefault / guarded insert / add', vt.where, not bad,
            f"non-additive writes: {bad}", key=vt.qual + '::additive', fn=vt.qual)
-    guard = [n for n in walk_no_nested(vt.node) if isinstance(n, ast.If) and unparse(n.test) == 'key not in val']
-    chk.ob('C05.b', 'existing metadata is never overwritten (if key not in val)', vt.where, len(guard) == 1, 'insert guard removed', key=vt.qual + '::no-overwrite', fn=vt.qual)
-    it = [l for l in G.find_for(vt.node) if unparse(l.target) == 'seq']
-    chk.ob('C05.b', 'W2F pass iterates a snapshot of the pool while adding', vt.where, len(it) == 1 and unparse(it[0].iter) == 'copy.copy(self.peptides)',
+    chk.ob('C05.b', 'existing metadata is never overwritten (an entry is stored only when its key is known absent)', vt.where, bool(stores) and not unguarded,
+           f"insert guard removed: {unguarded or 'no guarded store found'}", key=vt.qual + '::no-overwrite', fn=vt.qual)
+    it = [l for l in ast.walk(nvt) if isinstance(l, ast.For) and re.search(r'self\.peptides(?![\w\[.])', unparse(l.iter))]
+    ok = len(it) >= 1 and all(isinstance(l.iter, ast.Call) and call_name(l.iter) in ('copy', 'list', 'tuple', 'dict', 'deepcopy', 'sorted') for l in it)
+    chk.ob('C05.b', 'W2F pass iterates a snapshot of the pool while adding', vt.where, ok,
            'the pool is modified while iterated / not a snapshot', key=vt.qual + '::snapshot', fn=vt.qual)
     fc = repo.func('svgraph.VariantPeptideDict:VariantPeptideDict.find_codon_reassignments')
     chk.uses(vt, fc)
-    stm = [s for s in fc.node.body if not (isinstance(s, ast.Expr) and isinstance(s.value, ast.Constant))]
-    ok = len(stm) == 3 and norm_stmt(stm[0]) == 'variants = []' and isinstance(stm[1], ast.If) and unparse(stm[1].test) == 'w2f' and not stm[1].orelse \
-        and norm_stmt(stm[2]) == 'return variants'
+    nfc = sem.nf(repo, fc)
+    gen = sem.facts_where(nfc, lambda st: sem.own_stmt(st) and (bool(sem.calls_in_stmt(st, 'create_variant_w2f')) or bool(sem.calls_in_stmt(st, 'append'))))
+    ok = bool(gen) and all(sem.known(fx, 'w2f') is True for _st, fx in gen)
     chk.ob('C05.b', 'no W2F reassignment is generated unless the flag is on', fc.where, ok, 'find_codon_reassignments is not a no-op when w2f is off', key=fc.qual + '::noop', fn=fc.qual)
     mt = repo.func('svgraph.VariantPeptideDict:MiscleavedNodes.translational_modification')
     jm = repo.func('svgraph.VariantPeptideDict:MiscleavedNodes.join_miscleaved_peptides')
